@@ -250,6 +250,19 @@ func runC12(c *Ctx) {
 	add("merge-endless-operand-error", "eval", "numbers(100000000000).map(e -> if e = 5 then throw(\"x\") else e).merge(numbers(100000000000), (p, q) -> p < q).size()", 3)
 	add("merge-of-parallel-operands-early-stop", "eval", par+".merge("+par+", (p, q) -> p < q).top(20).size()", er)
 	add("cross-inner-parallel-early-stop", "eval", "[1, 2, 3].cross("+par+".top(30), (p, q) -> p + q).size()", er)
+	// the consumer stops (or an item fails) when the SOURCE is already exhausted: the last items are in the workers, nothing is
+	// left to cut off, and the in-flight results still have to be received (round-5 seed C12-14: the stage did not stop a
+	// source that was done, the collector left and every in-flight worker stayed in its send). Source sizes around the point
+	// where a stage goes parallel (12) plus up to two rounds of workers.
+	for _, n := range []int{13, 14, 16, 12 + runtime.NumCPU()/2, 11 + runtime.NumCPU(), 12 + runtime.NumCPU(), 14 + runtime.NumCPU(), 12 + 2*runtime.NumCPU()} {
+		src := fmt.Sprintf("numbers(%d).map(e -> slow(e))", n)
+		add(fmt.Sprintf("parallel-exhausted-source-early-stop:present-12:n=%d", n), "eval", src+".present(v -> v >= 12)", er)
+		add(fmt.Sprintf("parallel-exhausted-source-early-stop:present-late:n=%d", n), "eval", src+fmt.Sprintf(".present(v -> v >= %d)", n-2), er)
+		add(fmt.Sprintf("parallel-exhausted-source-early-stop:top:n=%d", n), "eval", src+fmt.Sprintf(".top(%d).size()", n-1), er)
+		add(fmt.Sprintf("parallel-exhausted-source-early-stop:accept-first:n=%d", n), "eval", fmt.Sprintf("numbers(%d).accept(e -> slow(e) >= 12).first()", n), er)
+		add(fmt.Sprintf("parallel-exhausted-source-error-at-13:n=%d", n), "eval", fmt.Sprintf("numbers(%d).map(e -> if e = 12 then throw(\"x\") else slow(e)).sum()", n), er)
+		add(fmt.Sprintf("parallel-exhausted-source-consumer-panics:n=%d", n), "eval", fmt.Sprintf("try numbers(%d).map(e -> slow(e)).reduce((p, q) -> if q >= 12 then boom(q) else p + q) catch 0", n), er)
+	}
 	add("parallel-error-in-worker", "eval", "numbers(100000).map(e -> if e = 40 then throw(\"x\") else slow(e)).sum()", er)
 	add("parallel-complete", "eval", "numbers(60).map(e -> slow(e)).sum()", er)
 	add("parallel-unconsumed", "eval", "let l = numbers(1000).map(e -> slow(e)); 1", er)
